@@ -938,6 +938,18 @@ func c13Parse(maxLen int) *Scenario {
 					judge([]byte("[" + a + "," + b + "]"))
 				}
 			}
+			// JSON white space (SP TAB LF CR and mixtures) before, after and inside the envelope
+			for _, ws := range []string{" ", "\t", "\n", "\r", "\r\n", " \r\n\t "} {
+				for i, a := range reps {
+					b := reps[(i+1)%len(reps)]
+					for _, in := range []string{ws + a, a + ws, ws + "[" + a + "]", "[" + a + "]" + ws, ws + "[" + ws + a + ws + "," + ws + b + ws + "]" + ws, strings.Replace(a, ":", ws+":"+ws, -1)} {
+						judge([]byte(in))
+					}
+				}
+				for _, in := range []string{ws, ws + "[]", "[" + ws + "]", ws + "{}", ws + "5"} {
+					judge([]byte(in))
+				}
+			}
 			alpha := []byte(`{}[]":,1an `)
 			var rec func(cur []byte)
 			rec = func(cur []byte) {
